@@ -6,10 +6,11 @@ The store of C10, but every writer operation is expanded into its list of file e
 re-extracted on every run: `skeleton_wellformed`).  A cut point `k` of a history is the file system after the first `k`
 effects.  Hypotheses as in C10: `8 ≤ initSize`, `4 ≤ pageSize`, the file stays below 2^31 bytes.
 
-FINDING F11 (confirmed on the real code): at the cut between file creation and the first truncate the file has length 0
-and the collector's reader raises struct.error, which fails the whole scrape.  `every_cut_readable_partial` and
-`one_file_cannot_fail_scrape_partial` exclude exactly that cut; `zero_length_cut_unreadable` shows the model exhibits it.
-A new writer reopening the file is NOT affected (`every_cut_reopenable` holds at every cut, that one included).
+F11 (found by this model, repaired in /repo): at the cut between file creation and the first truncate the file has length
+0; the collector's reader used to raise struct.error there, which failed the whole scrape.  The reader now returns the
+empty state for a file shorter than the 4-byte counter.  The guard is re-extracted on every run
+(`Generated.Mmap.shortFileGuard`, pinned by `skeleton_wellformed`); if it is removed or weakened, `skeleton_wellformed`,
+`short_file_reads_empty`, `every_cut_readable` and `one_file_cannot_fail_scrape` no longer check.
 -/
 import PromVerif.Model.MmapDict
 import PromVerif.Spec.MmapDict
@@ -24,13 +25,14 @@ theorem extract_ok : extractOk = true := by decide
 
 /-- the order of the file effects in the source: the file is sized before it is mapped and given a header; an entry is
 written completely before the used-bytes header is published; growth is a loop; a value update is one 16-byte slice
-assignment; the reader is bounded by the header -/
+assignment; the reader is bounded by the header and treats a file shorter than the counter as empty -/
 theorem skeleton_wellformed :
     ctorEffects = [.openFile, .truncateInitial, .remap, .writeHeader] ∧
     initValueEffects = [.growLoop, .writeEntry, .writeHeader] ∧
     growBody = [.truncateGrow, .remap] ∧ growKind = .whileLoop ∧
     writeValueEffects = [.callInitValue, .writeValue] ∧
-    packTwoDoublesSlice = twoDoublesWidth ∧ packIntegerSlice = intWidth ∧ readerUsesHeaderBound = true := by decide
+    packTwoDoublesSlice = twoDoublesWidth ∧ packIntegerSlice = intWidth ∧ readerUsesHeaderBound = true ∧
+    shortFileGuard = some intWidth := by decide
 
 /-- the history fits below 2^31 bytes: header + one entry per distinct key -/
 def FitsAll (ops : List Op) : Prop := 8 + need [] ops < 2147483648
@@ -80,45 +82,35 @@ theorem cut_cases (initSize : Nat) (tr : List Effect) (hi : 8 ≤ initSize) (k :
     rw [this]
     exact cut_mem_states _ _ _
 
-/-
-FULL STATEMENT (does not hold, F11): for every history and every cut k ≥ 1 the file reader succeeds and returns a prefix
-state.  Missing part: the cut k = 1 (file created, not yet sized: length 0), where the reader raises struct.error —
-`zero_length_cut_unreadable`.  Suggested repair in `read_all_values_from_file` / `_read_metrics`: treat a file shorter than
-the header as empty.
--/
-/-- for every history and every cut other than the zero-length one, the collector's file reader succeeds and returns the
+/-- for every history and EVERY cut (the zero-length one included), the collector's file reader succeeds and returns the
 spec state after some prefix of the completed operations, optionally plus the in-flight new key at (0, 0) -/
-theorem every_cut_readable_partial (initSize pageSize : Nat) (ops : List Op) (hi : 8 ≤ initSize) (hp : 4 ≤ pageSize)
+theorem every_cut_readable (initSize pageSize : Nat) (ops : List Op) (hi : 8 ≤ initSize) (hp : 4 ≤ pageSize)
     (hf : FitsAll ops) :
-    ∃ d effs, run initSize ops = .ok (d, effs) ∧ ∀ k, k ≠ 1 →
+    ∃ d effs, run initSize ops = .ok (d, effs) ∧ ∀ k,
       (k = 0 ∧ cut effs k = none) ∨
       ∃ file items, cut effs k = some file ∧ readAllValuesFromFile pageSize file = .ok items ∧
         PrefixState (ops.map toSpec) (tr3 items) := by
   obtain ⟨d, tr, hrun, _, hcuts⟩ := run_shape initSize ops hi hf
   refine ⟨d, _, hrun, ?_⟩
-  intro k hk
+  intro k
   rcases cut_cases initSize tr hi k with h | h | h | h
   · exact Or.inl h
-  · exact absurd h.1 hk
+  · exact Or.inr ⟨_, [], h.2, fromFile_empty pageSize, prefixFrom_here _ _⟩
   · exact Or.inr ⟨_, [], h.2, fromFile_zeros pageSize initSize (by omega) hp, prefixFrom_here _ _⟩
   · obtain ⟨file, esx, hs, ⟨u, tl, hfr, _⟩, hpre⟩ := hcuts _ h.2
     refine Or.inr ⟨file, scanOut 8 esx, hs, hfr.fromFile_ok pageSize hp, ?_⟩
     simp only [tr3]; rw [scanOut_triples]; exact hpre
 
-/-- the model exhibits F11: in every history the first cut is a zero-length file, on which the file reader raises
-struct.error — and with it the collector's loop over all files, whatever the other files hold -/
-theorem zero_length_cut_unreadable (initSize pageSize : Nat) (ops : List Op) (hi : 8 ≤ initSize) (hf : FitsAll ops) :
-    ∃ d effs, run initSize ops = .ok (d, effs) ∧ cut effs 1 = some [] ∧
-      readAllValuesFromFile pageSize [] = .error .structError ∧
-      ∀ healthy items rest, readAllValuesFromFile pageSize healthy = .ok items →
-        readMetrics pageSize (healthy :: [] :: rest) = .error .structError := by
+/-- the repaired behaviour at the first cut of every history (file created, not yet sized): the file is empty and the
+reader returns the empty state -/
+theorem zero_length_cut_reads_empty (initSize pageSize : Nat) (ops : List Op) (hi : 8 ≤ initSize) (hf : FitsAll ops) :
+    ∃ d effs, run initSize ops = .ok (d, effs) ∧ cut effs 1 = some [] ∧ readAllValuesFromFile pageSize [] = .ok [] := by
   obtain ⟨d, tr, hrun, _, _⟩ := run_shape initSize ops hi hf
-  exact ⟨d, _, hrun, rfl, fromFile_empty pageSize,
-    fun healthy items rest h => readMetrics_fail pageSize healthy items [] rest _ h (fromFile_empty pageSize)⟩
+  exact ⟨d, _, hrun, rfl, fromFile_empty pageSize⟩
 
-/-- … and so does any file shorter than the 4-byte counter -/
-theorem short_file_unreadable (pageSize : Nat) (f : Bytes) (h : f.length < 4) :
-    readAllValuesFromFile pageSize f = .error .structError := fromFile_short pageSize f h
+/-- any file shorter than the 4-byte counter reads as empty (this is the theorem that breaks if the guard is removed) -/
+theorem short_file_reads_empty (pageSize : Nat) (f : Bytes) (h : f.length < 4) :
+    readAllValuesFromFile pageSize f = .ok [] := fromFile_short pageSize f h
 
 /-- at the cut after the initial truncate and before the header write the file is all zero (used = 0): the reader returns
 the empty state, a new writer opens it as a fresh store -/
@@ -153,26 +145,16 @@ theorem never_written_never_read (initSize pageSize : Nat) (ops : List Op) (hi :
     ∃ d effs, run initSize ops = .ok (d, effs) ∧ ∀ k file items, cut effs k = some file →
       readAllValuesFromFile pageSize file = .ok items →
       ∀ x ∈ tr3 items, Written (ops.map toSpec) x.1 x.2.1 x.2.2 := by
-  obtain ⟨d, effs, hrun, hall⟩ := every_cut_readable_partial initSize pageSize ops hi hp hf
+  obtain ⟨d, effs, hrun, hall⟩ := every_cut_readable initSize pageSize ops hi hp hf
   refine ⟨d, effs, hrun, ?_⟩
   intro k file items hc hrd x hx
-  by_cases hk : k = 1
-  · -- the zero-length cut returns nothing at all
-    subst hk
-    obtain ⟨d2, tr, hrun2, _, _⟩ := run_shape initSize ops hi hf
-    rw [hrun] at hrun2
-    cases hrun2
-    have : file = [] := by simpa [cut, applyEffects, applyEffect] using hc.symm
-    subst this
-    rw [fromFile_empty] at hrd
-    cases hrd
-  · rcases hall k hk with h | ⟨file', items', hc', hrd', hpre⟩
-    · rw [h.2] at hc; cases hc
-    · rw [hc] at hc'; cases hc'
-      rw [hrd] at hrd'; cases hrd'
-      rcases prefixFrom_written [] _ _ hpre x hx with h | h
-      · simp at h
-      · exact h
+  rcases hall k with h | ⟨file', items', hc', hrd', hpre⟩
+  · rw [h.2] at hc; cases hc
+  · rw [hc] at hc'; cases hc'
+    rw [hrd] at hrd'; cases hrd'
+    rcases prefixFrom_written [] _ _ hpre x hx with h | h
+    · simp at h
+    · exact h
 
 /-- a value update of an existing key is ONE effect, a 16-byte slice write at the key's value field: the file goes from
 the old state directly to the new one (never through a zeroed field) -/
@@ -185,20 +167,38 @@ theorem value_update_single_effect {d es1 e es2 tail} (h : Rep d (es1 ++ e :: es
   ⟨_, _, writeValue_present h hk v t, by simp [packTwoDoublesSlice], by simp [states, applyEffect, valueBytes],
     (storeValue_ok h hk v t).2⟩
 
-/-
-FULL STATEMENT (does not hold, F11): the collector's loop over n worker files at arbitrary independent cuts is `.ok`.
-Missing part: files at the zero-length cut (`zero_length_cut_unreadable`).
--/
-/-- one dead or busy worker cannot fail the scrape: over any number of files, each at an arbitrary cut other than the
-zero-length one (a represented file, or the all-zero file), the collector's reading loop succeeds -/
-theorem one_file_cannot_fail_scrape_partial (pageSize : Nat) (hp : 4 ≤ pageSize) (files : List Bytes)
-    (h : ∀ f ∈ files, (∃ es, CutRep f es) ∨ ∃ n, 4 ≤ n ∧ f = zeros n) :
+/-- the file a history's writer leaves behind if it stops after `k` effects (`none`: no file yet, or the history does
+not run) -/
+def cutFile (initSize : Nat) (ops : List Op) (k : Nat) : Option Bytes :=
+  match run initSize ops with
+  | .ok (_, effs) => cut effs k
+  | .error _ => none
+
+/-- one dead or busy worker cannot fail the scrape: over any number of worker files, each left behind by an arbitrary
+history at an arbitrary, independent cut, the collector's reading loop succeeds -/
+theorem one_file_cannot_fail_scrape (initSize pageSize : Nat) (hi : 8 ≤ initSize) (hp : 4 ≤ pageSize) (files : List Bytes)
+    (h : ∀ f ∈ files, ∃ ops k, FitsAll ops ∧ cutFile initSize ops k = some f) :
     ∃ r, readMetrics pageSize files = .ok r := by
   apply readMetrics_ok
   intro f hf
-  rcases h f hf with ⟨es, u, tl, hfr, _⟩ | ⟨n, hn, rfl⟩
+  obtain ⟨ops, k, hfit, hc⟩ := h f hf
+  obtain ⟨d, effs, hrun, hall⟩ := every_cut_readable initSize pageSize ops hi hp hfit
+  simp only [cutFile, hrun] at hc
+  rcases hall k with h0 | ⟨file, items, hc', hrd, _⟩
+  · rw [h0.2] at hc; cases hc
+  · rw [hc] at hc'; cases hc'
+    exact ⟨items, hrd⟩
+
+/-- the same for files given by their shape: represented files, the all-zero file, files shorter than the counter -/
+theorem scrape_ok_of_shapes (pageSize : Nat) (hp : 4 ≤ pageSize) (files : List Bytes)
+    (h : ∀ f ∈ files, (∃ es, CutRep f es) ∨ (∃ n, 4 ≤ n ∧ f = zeros n) ∨ f.length < 4) :
+    ∃ r, readMetrics pageSize files = .ok r := by
+  apply readMetrics_ok
+  intro f hf
+  rcases h f hf with ⟨es, u, tl, hfr, _⟩ | ⟨n, hn, rfl⟩ | hs
   · exact ⟨_, hfr.fromFile_ok pageSize hp⟩
   · exact ⟨_, fromFile_zeros pageSize n hn hp⟩
+  · exact ⟨_, fromFile_short pageSize f hs⟩
 
 /-! ### non-vacuity -/
 
@@ -208,21 +208,23 @@ def demoOps : List Op :=
 
 theorem demo_fits : FitsAll demoOps := by unfold FitsAll; decide
 
-/-- a concrete history (64-byte initial file, so the third key forces a doubling): all its cuts but the first are readable -/
-example : ∃ d effs, run 64 demoOps = .ok (d, effs) ∧ ∀ k, k ≠ 1 →
+/-- a concrete history (64-byte initial file, so the third key forces a doubling): all its cuts are readable -/
+example : ∃ d effs, run 64 demoOps = .ok (d, effs) ∧ ∀ k,
     (k = 0 ∧ cut effs k = none) ∨ ∃ file items, cut effs k = some file ∧
       readAllValuesFromFile 4096 file = .ok items ∧ PrefixState (demoOps.map toSpec) (tr3 items) :=
-  every_cut_readable_partial 64 4096 demoOps (by decide) (by decide) demo_fits
+  every_cut_readable 64 4096 demoOps (by decide) (by decide) demo_fits
 
 example : CutRep (freshStore 64).file [] := ⟨_, _, (freshStore_rep 64 (by decide)).file, by simp⟩
 
-example : ∃ r, readMetrics 4096 [(freshStore 64).file, zeros 64, (freshStore 128).file] = .ok r :=
-  one_file_cannot_fail_scrape_partial 4096 (by decide) _ (by
+/-- a healthy file, an all-zero file, a zero-length file and a 3-byte file in one directory: the scrape succeeds -/
+example : ∃ r, readMetrics 4096 [(freshStore 64).file, zeros 64, [], [1, 2, 3]] = .ok r :=
+  scrape_ok_of_shapes 4096 (by decide) _ (by
     intro f hf
     simp only [List.mem_cons, List.not_mem_nil, or_false] at hf
-    rcases hf with rfl | rfl | rfl
+    rcases hf with rfl | rfl | rfl | rfl
     · exact Or.inl ⟨[], _, _, (freshStore_rep 64 (by decide)).file, by simp⟩
-    · exact Or.inr ⟨64, by decide, rfl⟩
-    · exact Or.inl ⟨[], _, _, (freshStore_rep 128 (by decide)).file, by simp⟩)
+    · exact Or.inr (Or.inl ⟨64, by decide, rfl⟩)
+    · exact Or.inr (Or.inr (by decide))
+    · exact Or.inr (Or.inr (by decide)))
 
 end PromVerif.Props.C11
